@@ -87,6 +87,7 @@ def wrappings(t, tier):
         yield replace(t, p, lambda x: ("fwd", x, "set"))    # target written with Props.set
         yield replace(t, p, lambda x: ("fwd", x, "named"))  # class named like a built-in (`Int`)
         yield replace(t, p, lambda x: ("fwd", x, "rereg"))  # registered again under the same name
+        yield replace(t, p, lambda x: ("fwd", x, "late"))   # hooks attached after the class statement
     pairs = [(p, q) for p, q in itertools.combinations(pos, 2)
              if p[:len(q)] != q and q[:len(p)] != p]          # disjoint positions
     for p, q in pairs[:MAXPAIRS[tier]]:
@@ -182,8 +183,26 @@ def extras():
     representor prints alias names raw) at depth 1 and 2."""
     from ..universe import INT
     two = ("alias", "Two\nLines", ("dict", (("k", False, INT),), False))
+    from ..universe import S, call
     return [("dict", (("a", False, two),), False), ("list", ("typed", ("alias", "Two\nLines", INT)), ()),
-            ("list", ("elems", (("dict", (("b", True, two),), True),)), ())]
+            ("list", ("elems", (("dict", (("b", True, two),), True),)), ()),
+            # typed lists of an already pinned float (substituting a value inside the tolerance
+            # must not re-pin it) and of plain uuid4 (long lists below)
+            ("list", ("typed", S("float", call(1.5))), ()), ("list", ("typed", S("float", call(2.5), ("precision", 2))), ()),
+            ("list", ("typed", S("uuid4")), ())]
+
+
+def long_values(t):
+    """For a typed list: 70 copies of a conforming member, and the same with ONE non-conforming
+    member near the end (beyond any 'bulk' threshold a validator may use for long lists)."""
+    if t[0] != "list" or t[1] is None or t[1][0] != "typed":
+        return []
+    ws = M.witnesses(t[1][1])
+    if not ws:
+        return []
+    import uuid
+    bad = uuid.UUID("51c2f442-bf61-11f1-b9da-02fc00000001") if t[1][1][0] == "uuid4" else ("q" if not isinstance(ws[0], str) else 0)
+    return [[ws[0]] * 70, [ws[0]] * 66 + [bad] + [ws[0]] * 3]
 
 
 def deep_pairs():
@@ -227,6 +246,7 @@ def worker(shard, nshards, tier, seed):
             if s is None:
                 continue
             vals, _ = value_universe(t, VLIM[tier])
+            vals = vals + long_values(t)
             acc.count("schemas")
             for tw in wrappings(t, tier):
                 sw, err = try_build(tw)
